@@ -190,6 +190,10 @@ func (p *Parser) Parse() (al align.Alignment, err error) {
 		}
 		for i, name := range names {
 			seq := sequences[name]
+			if len(seq) == 0 {
+				err = fmt.Errorf("sequence #%d (%s) is empty", i, name)
+				return
+			}
 			if len(seq) != int(nchar) && nchar != -1 {
 				err = fmt.Errorf("number of character in sequence #%d (%d) does not correspond to definition %d", i, len(seq), nchar)
 				return
